@@ -1,0 +1,38 @@
+//go:build verif
+
+// Contracts for the lvc verifier (comment-only file, compiled only with -tags verif).
+
+package multiparty
+
+// ---- copy constructors (property C10; the noise samplers also feed C16) ----
+//@ copy EvaluationKeyGenProtocol.ShallowCopy
+//@   shared params
+//@   fresh buff
+//@   derived gaussianSamplerQ uses params
+
+//@ copy GaloisKeyGenProtocol.ShallowCopy
+//@   fresh skOut
+//@   copied EvaluationKeyGenProtocol
+
+//@ copy PublicKeyGenProtocol.ShallowCopy
+//@   shared params
+//@   derived gaussianSamplerQ uses params
+
+//@ copy RelinearizationKeyGenProtocol.ShallowCopy
+//@   shared params
+//@   derived gaussianSamplerQ uses params
+//@   derived ternarySamplerQ uses params
+//@   fresh buf
+
+//@ copy KeySwitchProtocol.ShallowCopy
+//@   property C10 C16
+//@   shared params noise
+//@   derived noiseSampler uses noise
+//@   fresh buf bufDelta
+
+//@ copy PublicKeySwitchProtocol.ShallowCopy
+//@   property C10 C16
+//@   shared params noise
+//@   derived noiseSampler uses noise
+//@   fresh buf
+//@   copied Encryptor
